@@ -289,12 +289,14 @@ Proof.
 Qed.
 
 (* ---------- replayer ---------- *)
-Lemma quiesce_sound : forall fuel s s', quiesce matchf dirsize fuel s = Some s' ->
+Lemma quiesce_sound : forall hold fuel s s', quiesce matchf dirsize hold fuel s = Some s' ->
   exists hidden, Forall (fun e => is_hidden e = true) hidden /\ run s hidden = Some s'.
 Proof.
-  induction fuel as [|fuel IH]; intros s s' H; cbn [quiesce] in H.
-  - destruct (next_hidden s) as [e|] eqn:En; [discriminate|]. inversion H; subst. exists []. split; [constructor|reflexivity].
-  - destruct (next_hidden s) as [e|] eqn:En.
+  intros hold. induction fuel as [|fuel IH]; intros s s' H; cbn [quiesce] in H.
+  - destruct (stalled hold s); [inversion H; subst; exists []; split; [constructor|reflexivity]|].
+    destruct (next_hidden s) as [e|] eqn:En; [discriminate|]. inversion H; subst. exists []. split; [constructor|reflexivity].
+  - destruct (stalled hold s); [inversion H; subst; exists []; split; [constructor|reflexivity]|].
+    destruct (next_hidden s) as [e|] eqn:En.
     + destruct (step s e) as [s1|] eqn:Es; [|discriminate].
       destruct (IH s1 s' H) as (hid & Hh & Hr). exists (e :: hid). split.
       * constructor; [|exact Hh]. unfold next_hidden in En. destruct (st_up s); [|discriminate].
@@ -303,13 +305,13 @@ Proof.
                  | context [match ?x with _ => _ end] => destruct x
                  | context [if ?x then _ else _] => destruct x
                  end; inversion En; reflexivity.
-      * cbn [run]. rewrite Es. exact Hr.
+      * cbn [Buffer.run]. rewrite Es. exact Hr.
     + inversion H; subst. exists []. split; [constructor|reflexivity].
 Qed.
 
 Lemma run_app : forall e1 e2 s, run s (e1 ++ e2) = match run s e1 with Some s1 => run s1 e2 | None => None end.
 Proof.
-  induction e1 as [|e e1 IH]; intros e2 s; cbn [app run]; [reflexivity|].
+  induction e1 as [|e e1 IH]; intros e2 s; cbn [app Buffer.run]; [reflexivity|].
   destruct (step s e); [apply IH|reflexivity].
 Qed.
 
@@ -321,22 +323,45 @@ Proof.
   rewrite H2. cbn [negb]. apply IH. assumption.
 Qed.
 
+Lemma visible_app : forall a b, visible (a ++ b) = visible a ++ visible b.
+Proof. intros. unfold visible. apply filter_app. Qed.
+
+(* the events the observed operations stand for *)
+Definition ops_events (ops : list (rop)) : list event := concat (map events_of ops).
+
 (* what the replayer accepts is a run of the LTS whose visible events are exactly the observed operations *)
-Lemma accept_sound_lemma : forall ops i s h s' h',
-  replay matchf dirsize i ops s h = inl (s', h') ->
-  exists evs, run s evs = Some s' /\ visible evs = ops.
+Lemma accept_sound_lemma : forall ops i hold s h s' h',
+  replay matchf dirsize i ops hold s h = inl (s', h') ->
+  exists evs, run s evs = Some s' /\ visible evs = ops_events ops.
 Proof.
-  induction ops as [|e ops IH]; intros i s h s' h' H; cbn [replay] in H.
+  induction ops as [|o ops IH]; intros i hold s h s' h' H; cbn [replay] in H.
   - inversion H; subst. exists []. split; reflexivity.
-  - destruct (is_hidden e) eqn:Eh; [discriminate|].
-    destruct (step s e) as [s1|] eqn:Es; [|discriminate].
-    destruct (quiesce matchf dirsize (quiesce_fuel s1) s1) as [s2|] eqn:Eq; [|discriminate].
-    destruct (quiesce_sound _ _ _ Eq) as (hid & Hh & Hr).
-    destruct (IH _ _ _ _ _ H) as (evs & Hrun & Hvis).
-    exists (e :: hid ++ evs). split.
-    + cbn [run]. rewrite Es. rewrite run_app, Hr. exact Hrun.
-    + unfold visible in *. cbn [filter]. rewrite Eh. cbn [negb]. f_equal.
-      rewrite filter_app. fold (visible hid). rewrite (visible_hidden _ Hh). exact Hvis.
+  - unfold ops_events. cbn [map concat]. fold (ops_events ops). destruct o as [e|n Q M maxb|].
+    + destruct (is_hidden e) eqn:Eh; [discriminate|].
+      destruct (match hold with Some _ => negb (allowed_while_held matchf e) | None => false end); [discriminate|].
+      destruct (step s e) as [s1|] eqn:Es; [|discriminate].
+      destruct (quiesce matchf dirsize hold (quiesce_fuel s1) s1) as [s2|] eqn:Eq; [|discriminate].
+      destruct (quiesce_sound _ _ _ _ Eq) as (hid & Hh & Hr).
+      destruct (IH _ _ _ _ _ _ H) as (evs & Hrun & Hvis).
+      exists (e :: hid ++ evs). split.
+      * cbn [Buffer.run]. rewrite Es. rewrite run_app, Hr. exact Hrun.
+      * change (e :: hid ++ evs) with ([e] ++ hid ++ evs). rewrite !visible_app, (visible_hidden _ Hh), Hvis.
+        unfold visible. cbn [filter events_of app]. rewrite Eh. reflexivity.
+    + destruct hold; [discriminate|]. destruct (sorts_first matchf n (st_dir s)); [|discriminate].
+      destruct (Buffer.run matchf dirsize s (events_of (RHold n Q M maxb))) as [s1|] eqn:Es; [|discriminate].
+      destruct (quiesce matchf dirsize (Some n) (quiesce_fuel s1) s1) as [s2|] eqn:Eq; [|discriminate].
+      destruct (quiesce_sound _ _ _ _ Eq) as (hid & Hh & Hr).
+      destruct (IH _ _ _ _ _ _ H) as (evs & Hrun & Hvis).
+      exists (events_of (RHold n Q M maxb) ++ hid ++ evs). split.
+      * rewrite run_app, Es, run_app, Hr. exact Hrun.
+      * rewrite !visible_app, (visible_hidden _ Hh), Hvis. reflexivity.
+    + destruct (stalled hold s); [|discriminate].
+      destruct (quiesce matchf dirsize None (quiesce_fuel s) s) as [s2|] eqn:Eq; [|discriminate].
+      destruct (quiesce_sound _ _ _ _ Eq) as (hid & Hh & Hr).
+      destruct (IH _ _ _ _ _ _ H) as (evs & Hrun & Hvis).
+      exists (hid ++ evs). split.
+      * rewrite run_app, Hr. exact Hrun.
+      * rewrite visible_app, (visible_hidden _ Hh), Hvis. reflexivity.
 Qed.
 
 End Theorems.
